@@ -288,6 +288,22 @@ theorem propagate_is_generated (d : Bool) (m o : List (List Nat)) (path : List N
   | orange k e i l => exact gen_orange d m o path k e i l
   | none l => exact gen_none d m o path l
 
+/-- **C16 for the translated code**: under the hypotheses of `propagate_correct`, the translated `_propagate` applied to
+the root (the model's `propagate` standing for its recursive calls, as justified by `propagate_is_generated` at every
+node below) returns, without raising, the boolean value of the query and classifies every visible sub-expression as
+matching exactly when it evaluates to true, as not matching exactly when it evaluates to false -/
+theorem translated_propagate_correct (defaultOr : Bool) (τ : List Nat → Bool) (t : Tree)
+    (hg : good false t = true) (matching other : List (List Nat))
+    (hm : ∀ p, p ∈ matching ↔ p ∈ Lemmas.NamedPaths.named t ∧ coverVal τ t p = true)
+    (ho : ∀ p, p ∈ other ↔ p ∈ Lemmas.NamedPaths.named t ∧ coverVal τ t p = false) :
+    ∃ r, genProp defaultOr (propagate (propCfg defaultOr) matching other) (sfpOf matching other) matching other [] t
+        = .ok r ∧
+      r.1 = evalT defaultOr τ [] t ∧
+      ∀ p n, t.at? p = some n → visible t p = true →
+        (p ∈ r.2.1 ↔ evalT defaultOr τ p n = true) ∧ (p ∈ r.2.2 ↔ evalT defaultOr τ p n = false) := by
+  have h := propagate_correct defaultOr τ t hg matching other hm ho
+  exact ⟨_, propagate_is_generated defaultOr matching other [] t, h.1, h.2.1⟩
+
 /-- every function the translator was asked for was translated: `_status_from_parent`, and for each default
 operation the 20 classes and the iteration of the loop -/
 theorem propagate_names_complete : Propagate.propagateNames.length = 1 + 2 * (20 + 1) := by decide
